@@ -314,6 +314,10 @@ fn peephole3_helper(lines: &[Line], index: usize, ret: &mut Vec<Line>) -> bool {
                         let a = a.parse::<f64>().unwrap();
                         let b = b.parse::<f64>().unwrap();
                         let c = a + b;
+                        if c.is_nan() {
+                            // the sign of a NaN does not survive the decimal string of the constant
+                            return false;
+                        }
                         ret.push(Line::Instr {
                             instr: Instr::PushFloat(c.to_string()),
                             lineno,
@@ -331,6 +335,10 @@ fn peephole3_helper(lines: &[Line], index: usize, ret: &mut Vec<Line>) -> bool {
                         let a = a.parse::<f64>().unwrap();
                         let b = b.parse::<f64>().unwrap();
                         let c = a - b;
+                        if c.is_nan() {
+                            // the sign of a NaN does not survive the decimal string of the constant
+                            return false;
+                        }
                         ret.push(Line::Instr {
                             instr: Instr::PushFloat(c.to_string()),
                             lineno,
@@ -348,6 +356,10 @@ fn peephole3_helper(lines: &[Line], index: usize, ret: &mut Vec<Line>) -> bool {
                         let a = a.parse::<f64>().unwrap();
                         let b = b.parse::<f64>().unwrap();
                         let c = a * b;
+                        if c.is_nan() {
+                            // the sign of a NaN does not survive the decimal string of the constant
+                            return false;
+                        }
                         ret.push(Line::Instr {
                             instr: Instr::PushFloat(c.to_string()),
                             lineno,
@@ -365,6 +377,10 @@ fn peephole3_helper(lines: &[Line], index: usize, ret: &mut Vec<Line>) -> bool {
                         let a = a.parse::<f64>().unwrap();
                         let b = b.parse::<f64>().unwrap();
                         let c = a / b;
+                        if c.is_nan() {
+                            // the sign of a NaN does not survive the decimal string of the constant
+                            return false;
+                        }
                         ret.push(Line::Instr {
                             instr: Instr::PushFloat(c.to_string()),
                             lineno,
@@ -382,6 +398,10 @@ fn peephole3_helper(lines: &[Line], index: usize, ret: &mut Vec<Line>) -> bool {
                         let a = a.parse::<f64>().unwrap();
                         let b = b.parse::<f64>().unwrap();
                         let c = a.powf(b);
+                        if c.is_nan() {
+                            // the sign of a NaN does not survive the decimal string of the constant
+                            return false;
+                        }
                         ret.push(Line::Instr {
                             instr: Instr::PushFloat(c.to_string()),
                             lineno,
